@@ -519,12 +519,13 @@ Definition rkind_matches (rt : rtype) (o : rkind) : bool :=
   end.
 
 (* ---------------------------------------------------------------------- dot(a, b): routing *)
-(* the decisions of `dot` are the generated fragment g_dot (Gen/G_dot.v): the 1-d . 1-d path
+(* the decisions of `dot` are the generated fragment g_dot (Gen/G_dot.v): a 0-d operand, the 1-d . 1-d path
    (after the length check) or tensordot with the chosen contraction axes *)
-Inductive dot_path := Path1d | PathTensordot (a_axis b_axis : Z).
+Inductive dot_path := Path0d | Path1d | PathTensordot (a_axis b_axis : Z).
 
 Definition dot_route (a_ndim b_ndim a_len b_len : Z) : res dot_path :=
   match g_dot VNone VNone (VInt a_ndim) (VInt b_ndim) (VInt a_len) (VInt b_len) with
+  | Ok (VTuple [VInt 3]) => Ok Path0d           (* a 0-d operand: tensordot(a, b, axes=0) *)
   | Ok (VTuple [VInt 0; _; _]) => Ok Path1d
   | Ok (VTuple [VInt 1; VInt x; VInt y]) => Ok (PathTensordot x y)
   | Ok _ => Raise OtherError
@@ -646,7 +647,8 @@ Definition matmul_route (a_ndim b_ndim a_lead b_lead : Z) : option matmul_strate
    an entry is selected when, for every label occurring more than once, the coordinates at the later positions
    equal the coordinate at the first (`(coords[loc0] == coords[rlocs]).all(axis=0)`); the kept coordinates are
    permuted/projected by perm = [lhs.index(ix) for ix in rhs]; the COO constructor is told
-   has_duplicates=True, i.e. coinciding coordinates are SUMMED (den_sum). *)
+   has_duplicates=True, prune=True, i.e. coinciding coordinates are SUMMED (den_sum) and sums equal to the fill
+   are then dropped (which does not change den_sum). *)
 Section EinsumSingle.
   Variable V : Type.
   Variable vzero : V.
@@ -754,3 +756,21 @@ Definition coo_indptr_b := coo_csr_indptr s_coo_indptr_dtype_b.
 
 (* every pointer / index / counter array of the product paths is allocated wide (np.intp or the platform integer) *)
 Definition dot_index_arrays_wide : bool := forallb (fun c => (c =? 0) || (c =? 3)) s_dot_index_allocs.
+
+(* ---------------------------------------------------------------------- tensordot: kind of the zero-size result *)
+(* the block taken when the contracted extent is 0:  res = COO(empty);
+     if return_type is None and (a or b is an ndarray): return_type = np.ndarray
+     if return_type == np.ndarray: res = res.todense()  elif return_type == GCXS: res = res.asformat("gcxs") *)
+Definition td_shortcut_kind (ka kb : okind) (rt : rtype) : rkind :=
+  let rt' := match rt with
+             | RNone => if negb (is_sparse_kind ka) || negb (is_sparse_kind kb) then RNd else RNone
+             | _ => rt end in
+  match rt' with RNd => ONd | RGcxs => OGcxsAuto | _ => OCoo end.
+
+Fixpoint table4_lookup (t : list (Z * Z * Z * Z)) (a b c : Z) : option Z :=
+  match t with
+  | [] => None
+  | (a', b', c', r) :: t' => if (a =? a') && (b =? b') && (c =? c') then Some r else table4_lookup t' a b c
+  end.
+Definition source_shortcut_kind (ka kb : okind) (rt : rtype) : option Z :=
+  table4_lookup s_td_shortcut_kinds (okind_code ka) (okind_code kb) (rtype_code rt).
